@@ -33,11 +33,30 @@ enum Op {
     Audio { pts: f64, data: Vec<u8> },
 }
 
+#[derive(Clone, Copy, PartialEq)]
+enum VC {
+    H264,
+    H265,
+    Av1,
+    Vp9,
+}
+
+#[derive(Clone, Copy, PartialEq)]
+enum AC {
+    None,
+    Aac,
+    Opus,
+}
+
 #[derive(Clone)]
 struct Script {
-    hevc: bool,
-    audio: bool,
+    vc: VC,
+    ac: AC,
     fast_start: bool,
+    /// title / language metadata (the udta path)
+    title: Option<String>,
+    /// run through the fragmented muxer instead (H.264 configuration): write, flush every `frag_every` samples
+    fragmented: Option<usize>,
     ops: Vec<Op>,
 }
 
@@ -93,6 +112,46 @@ fn video_frame(rng: &mut Rng, hevc: bool, first: bool, size: usize, tag: u8) -> 
     d
 }
 
+fn av1_frame(rng: &mut Rng, first: bool, size: usize, tag: u8) -> Vec<u8> {
+    let mut d = Vec::with_capacity(size + 32);
+    if first {
+        // sequence header OBU (type 1, with size), the synthetic one the crate's own tests use
+        d.extend_from_slice(&[0x0A, 12, 0x00, 0x00, 0x00, 0x10, 0x07, 0x80, 0x04, 0x38, 0x00, 0x00, 0x00, 0x00]);
+    }
+    let p = body(rng, size.max(4), tag);
+    d.push(0x32); // frame OBU with size field
+    let mut n = p.len() + 1;
+    loop {
+        let b = (n & 0x7f) as u8;
+        n >>= 7;
+        if n == 0 {
+            d.push(b);
+            break;
+        }
+        d.push(b | 0x80);
+    }
+    d.push(if first { 0x10 } else { 0x30 });
+    d.extend_from_slice(&p);
+    d
+}
+
+fn vp9_frame(rng: &mut Rng, first: bool, size: usize, tag: u8) -> Vec<u8> {
+    let mut d = vec![0x49, 0x83, 0x42];
+    if first {
+        d.extend_from_slice(&[0x00, 0x80, 0x64, 0x64, 0x12]);
+    } else {
+        d.extend_from_slice(&[0x10, 0x80]);
+    }
+    d.extend(body(rng, size.max(4), tag));
+    d
+}
+
+fn opus(rng: &mut Rng, n: usize, tag: u8) -> Vec<u8> {
+    let mut d = vec![0x78]; // config 15, one frame
+    d.extend(body(rng, n, tag));
+    d
+}
+
 fn adts(rng: &mut Rng, n: usize, tag: u8) -> Vec<u8> {
     let len = 7 + n;
     let mut f = vec![0u8; 7];
@@ -107,33 +166,88 @@ fn adts(rng: &mut Rng, n: usize, tag: u8) -> Vec<u8> {
     f
 }
 
-fn make_script(rng: &mut Rng, k: usize, big: usize) -> Script {
-    let hevc = rng.below(2) == 0;
-    let audio = rng.below(2) == 0;
+fn make_script(rng: &mut Rng, k: usize, big: usize, profile: u64) -> Script {
+    // profile 1: every script converts Annex B (H.264 / H.265, progressive); 2: AV1 / VP9 only; 3: one fragmented
+    // muxer among progressive ones; 0: drawn freely
+    let vc = match profile {
+        1 => [VC::H264, VC::H265][rng.below(2) as usize],
+        2 => [VC::Av1, VC::Vp9][rng.below(2) as usize],
+        _ => [VC::H264, VC::H265, VC::Av1, VC::Vp9][rng.below(4) as usize],
+    };
+    let ac = [AC::None, AC::Aac, AC::Opus][rng.below(3) as usize];
     let tag = (k as u8).wrapping_mul(37);
     let n = 3 + rng.below(3) as usize;
+    let fragmented = match profile {
+        1 | 2 => None,
+        3 => if k == 0 { Some(1 + rng.below(3) as usize) } else { None },
+        _ => if rng.below(4) == 0 { Some(1 + rng.below(3) as usize) } else { None },
+    };
+    let vc = if fragmented.is_some() { VC::H264 } else { vc };
     let mut ops = Vec::new();
     for i in 0..n {
         // every script has its large frames at the same positions, so that the threads are inside the same
         // library paths at the same time
         let size = if i == 1 || i == 2 { big + rng.below(64) as usize } else { 8 + rng.below(40) as usize };
-        ops.push(Op::Video { pts: i as f64 / 30.0, data: video_frame(rng, hevc, i == 0, size, tag), key: i == 0 });
-        if audio {
+        let data = match vc {
+            VC::H264 => video_frame(rng, false, i == 0, size, tag),
+            VC::H265 => video_frame(rng, true, i == 0, size, tag),
+            VC::Av1 => av1_frame(rng, i == 0, size, tag),
+            VC::Vp9 => vp9_frame(rng, i == 0, size, tag),
+        };
+        ops.push(Op::Video { pts: i as f64 / 30.0, data, key: i == 0 });
+        if ac != AC::None && fragmented.is_none() {
             let n_a = 10 + rng.below(30) as usize;
-            ops.push(Op::Audio { pts: i as f64 / 30.0, data: adts(rng, n_a, tag) });
+            let data = if ac == AC::Aac { adts(rng, n_a, tag) } else { opus(rng, n_a, tag) };
+            ops.push(Op::Audio { pts: i as f64 / 30.0, data });
         }
     }
-    Script { hevc, audio, fast_start: rng.below(2) == 0, ops }
+    let title = if rng.below(2) == 0 { Some(format!("clip {} {}", k, rng.below(1000))) } else { None };
+    Script { vc, ac, fast_start: rng.below(2) == 0, title, fragmented, ops }
 }
 
-/// Runs one script; the result is every return value (as text) and the file.
+/// Runs one script; the result is every return value (as text) and the bytes produced.
 fn run(s: &Script) -> (Vec<String>, Vec<u8>) {
     let mut rets = Vec::new();
     let mut out = Vec::new();
+    if let Some(every) = s.fragmented {
+        let mut m = muxide::fragmented::FragmentedMuxer::new(muxide::fragmented::FragmentConfig { width: 640, height: 480, ..Default::default() });
+        out.extend_from_slice(&m.init_segment());
+        let mut queued = 0;
+        for (i, op) in s.ops.iter().enumerate() {
+            if let Op::Video { data, key, .. } = op {
+                let t = i as u64 * 3000;
+                rets.push(format!("{:?}", m.write_video(t, t, data, *key)));
+                queued += 1;
+                rets.push(format!("{} {}", m.ready_to_flush(), m.current_fragment_duration_ms()));
+                if queued >= every {
+                    if let Some(seg) = m.flush_segment() {
+                        out.extend_from_slice(&seg);
+                    }
+                    queued = 0;
+                }
+            }
+        }
+        if let Some(seg) = m.flush_segment() {
+            out.extend_from_slice(&seg);
+        }
+        out.extend_from_slice(&m.init_segment());
+        return (rets, out);
+    }
     {
-        let mut b = MuxerBuilder::new(&mut out).video(if s.hevc { VideoCodec::H265 } else { VideoCodec::H264 }, 640, 480, 30.0).with_fast_start(s.fast_start);
-        if s.audio {
-            b = b.audio(AudioCodec::Aac(AacProfile::Lc), 48000, 2);
+        let codec = match s.vc {
+            VC::H264 => VideoCodec::H264,
+            VC::H265 => VideoCodec::H265,
+            VC::Av1 => VideoCodec::Av1,
+            VC::Vp9 => VideoCodec::Vp9,
+        };
+        let mut b = MuxerBuilder::new(&mut out).video(codec, 640, 480, 30.0).with_fast_start(s.fast_start);
+        match s.ac {
+            AC::Aac => b = b.audio(AudioCodec::Aac(AacProfile::Lc), 48000, 2),
+            AC::Opus => b = b.audio(AudioCodec::Opus, 48000, 2),
+            AC::None => {}
+        }
+        if let Some(t) = &s.title {
+            b = b.with_metadata(muxide::api::Metadata::new().with_title(t.clone()).with_creation_time(1_700_000_000).with_language("eng"));
         }
         let mut m = match b.build() {
             Ok(m) => m,
@@ -179,7 +293,14 @@ fn main() {
     let mode = args.get(3).cloned().unwrap_or_default();
     let mut rng = Rng(seed.wrapping_mul(0x2545F4914F6CDD1D) ^ 0x5bd1e995);
     let threads = 2 + rng.below(2) as usize;
-    let scripts: Vec<Script> = (0..threads).map(|k| make_script(&mut rng, k, big)).collect();
+    let scripts: Vec<Script> = (0..threads).map(|k| make_script(&mut rng, k, big, seed % 4)).collect();
+    if mode == "show" {
+        for (k, sc) in scripts.iter().enumerate() {
+            let r = run(sc);
+            println!("script {}: codec {} audio {} fragmented {:?} title {:?} -> {} bytes; {:?}", k, sc.vc as u8, sc.ac as u8, sc.fragmented, sc.title, r.1.len(), r.0);
+        }
+        return;
+    }
     if mode == "reference" {
         let d: Vec<String> = scripts.iter().map(|s| format!("{:016x}", digest(&run(s)))).collect();
         println!("REFERENCE {}", d.join(","));
